@@ -8,6 +8,7 @@ From SU.Model Require Import Ribbon.
 From SU.Spec Require Import RibbonSpec.
 From SU.Proofs Require Import RibbonProofs RibbonValueProofs.
 From SU.Proofs Require Import RibbonExtraProofs.
+From SU.Proofs Require Import RibbonKillers.
 Open Scope Z_scope.
 
 (** the ring buffer yields the last [cap] written values, oldest first *)
@@ -197,6 +198,33 @@ Theorem C16_monotone_f32 : forall cap fs sp dr pu samples1 samples2 W1 W2 x y,
 Proof. exact C16_monotone_f32. Qed.
 Close Scope R_scope.
 
+(** how many samples contribute and how many newest ones are excluded, in closed form *)
+Theorem C16_contributing_count : forall (fs : Z) sp dr pu,
+  100 <= fs <= 192000 ->
+  let cap := Z.to_nat (sample_rate_to_capacity fs) in
+  let r0 := ribbon_new cap (of_Z fs) sp dr pu in
+  Z.of_nat cap - rb_discard r0 = fs * 15 / 1000 + 1 /\
+  rb_discard r0 = fs / 500.
+Proof. exact contributing_count. Qed.
+
+(** the power-on state *)
+Theorem C16_new_state : forall cap fs sp dr pu,
+  let r0 := ribbon_new cap fs sp dr pu in
+  rb_cap r0 = cap /\ rb_pressing r0 = false /\
+  rb_just_pressed r0 = false /\ rb_just_released r0 = false /\
+  rb_val r0 = f_0 /\ ribbon_value r0 = fmin (fdiv f_0 (rb_boundary r0)) f_1 /\
+  rb_boundary r0 = fsub f_1 (fdiv dr (fadd dr sp)) /\
+  rb_err r0 = fdiv (fadd sp dr) pu.
+Proof. exact ribbon_new_state. Qed.
+
+(** the value stays 0.0 until the first press is reported *)
+Theorem C16_value_before_first_press : forall cap fs sp dr pu samples,
+  (0 < cap)%nat ->
+  let r0 := ribbon_new cap fs sp dr pu in
+  (forall n, rb_pressing (polls r0 (firstn n samples)) = false) ->
+  rb_val (polls r0 samples) = f_0 /\ ribbon_value (polls r0 samples) = ribbon_value r0.
+Proof. exact value_before_first_press. Qed.
+
 Print Assumptions C16_histbuf.
 Print Assumptions C16_value_window.
 Print Assumptions C16_retained.
@@ -214,3 +242,6 @@ Print Assumptions C16_independent_of_earlier_press.
 Print Assumptions C16_independent_of_newest.
 Print Assumptions C16_between_f32.
 Print Assumptions C16_monotone_f32.
+Print Assumptions C16_contributing_count.
+Print Assumptions C16_new_state.
+Print Assumptions C16_value_before_first_press.
